@@ -212,14 +212,18 @@ def harness_path(isa, mode, defines=()):
 def build_harness(isa, mode, defines=()):
     exe, flags, tag = harness_path(isa, mode, defines)
     if os.path.exists(exe):
+        os.utime(exe, None)
         return exe, ""
     os.makedirs(BUILD, exist_ok=True)
-    for old in os.listdir(BUILD):  # drop stale binaries of the same configuration
-        if old.startswith(tag + "_") and len(old) == len(tag) + 21:
-            try:
-                os.remove(os.path.join(BUILD, old))
-            except OSError:
-                pass
+    # keep the three most recently used binaries of this configuration (the unchanged tree's binary survives an
+    # excursion to a modified tree), drop older ones
+    same = sorted((f for f in os.listdir(BUILD) if f.startswith(tag + "_") and len(f) == len(tag) + 21),
+                  key=lambda f: os.path.getmtime(os.path.join(BUILD, f)), reverse=True)
+    for old in same[2:]:
+        try:
+            os.remove(os.path.join(BUILD, old))
+        except OSError:
+            pass
     cmd = ["g++", "-std=c++17", "-fno-access-control", "-Wno-attributes", "-I" + os.path.join(REPO, "include"),
            "-I" + os.path.join(ROOT, "harness")] + flags + [os.path.join(ROOT, "harness/harness.cpp"), "-o", exe + ".tmp",
                                                            "-lpthread"]
